@@ -34,8 +34,31 @@ UNITS.append(dict(name="c03_bundlespacegraph_clear", template="C01/bundle_clear.
                                        (r"importanceCalculator_->clear\(\);", "ic_cleared = 1;", 0), (r"graphSampler_->clear\(\);", "gs_cleared = 1;", 0), (r"pathRestriction_ != nullptr", "pathRestriction_ != NIL", 0),
                                        (r"pathRestriction_->clear\(\);", "pr_cleared = 1;", 0)])],
                   canaries=[dict(name="start_index_kept", where="body:clear", rx=r"vStart_ = 0;", repl="")]))
+# the evaluation of a termination condition (unit of C18): a zero-period condition evaluates its predicate
+_s3 = importlib.util.spec_from_file_location("c18", os.path.join(os.path.dirname(__file__), "C18.py")); C18 = importlib.util.module_from_spec(_s3); _s3.loader.exec_module(C18)
+for u in C18.UNITS:
+    if u["name"] in ("c18_impl_eval",):
+        v = copy.deepcopy(u); v["name"] = "c03_termination_eval"; UNITS.append(v)
+EITF = "src/ompl/geometric/planners/informedtrees/src/EITstar.cpp"
+PRMF3 = "src/ompl/geometric/planners/prm/src/PRM.cpp"
+EA_RULES = [
+    (r"assert\(trackApproximateSolutions_\);", "", 0), (r"state->hasForwardVertex\(\)", "HAS_FWD", 0), (r"graph_\.isStart\(state\)", "IS_START", 0), (r"graph_\.isGoal\(state\)", "IS_GOAL", 0),
+    (r"const auto costToGoal = computeCostToGoToGoal\(state\);", "const double costToGoal = COST_TO_GOAL();", 0), (r"\bisBetter\(", "better(", 0), (r"problem_->hasSolution\(\)", "HAS_SOLUTION()", 0),
+    (r"approximateSolutionCost_ = state->getCurrentCostToCome\(\);", "approximateSolutionCost_ = COST_TO_COME;", 0),
+    (r"ompl::base::PlannerSolution solution\(getPathToState\(state\)\);", "Sol solution; solution.path = 1; solution.approx = 0; solution.dif = 0.0; solution.cost = 0.0; solution.optimized = 0;", 0),
+    (r"solution\.setPlannerName\(name_\);", "", 0), (r"solution\.setApproximate\(costToGoal\.value\(\)\);", "solution.approx = 1; solution.dif = costToGoal;", 0),
+    (r"solution\.setOptimized\(objective_, approximateSolutionCost_, false\);", "solution.cost = approximateSolutionCost_; solution.optimized = 0;", 0), (r"pdef_->addSolutionPath\(solution\);", "ADD_SOLUTION(&solution);", 0),
+    (r"Planner::setProblemDefinition\(pdef\);", "BASE_SET(pdef);", 0), (r"clearQuery\(\);", "prm_clearQuery();", 0), (r"startM_\.clear\(\);", "startM_n = 0;", 0), (r"goalM_\.clear\(\);", "goalM_n = 0;", 0), (r"pis_\.restart\(\);", "pis_restarted = 1;", 0),
+]
+EA_SRC = [dict(name="eit_approx", file=EITF, sig=r"void EITstar::updateApproximateSolution\(const std::shared_ptr<eitstar::State> &state\)", rules=EA_RULES, loops={}),
+          dict(name="clearQuery", file=PRMF3, sig=r"void ompl::geometric::PRM::clearQuery\(\)", rules=EA_RULES, loops={}),
+          dict(name="setProblemDefinition", file=PRMF3, sig=r"void ompl::geometric::PRM::setProblemDefinition\(const base::ProblemDefinitionPtr &pdef\)", rules=EA_RULES, loops={})]
+UNITS.append(dict(name="c03_eitstar_updateApproximateSolution", template="C01/eit_approx.c", mode="plain", entry="h_eit_approx", flags=["--bounds-check", "--pointer-check"], level="proof", backend="minisat", timeout=300, sources=EA_SRC,
+                  functions=["ompl::geometric::EITstar::updateApproximateSolution(state)"], canaries=[dict(name="cost_to_goal_of_the_old_state", where="body:eit_approx", rx=r"approximateSolutionCostToGoal_ = costToGoal;", repl="")]))
+UNITS.append(dict(name="c03_prm_setProblemDefinition", template="C01/eit_approx.c", mode="plain", entry="h_prm_setpdef", flags=["--bounds-check", "--pointer-check"], level="proof", backend="minisat", timeout=300, sources=EA_SRC,
+                  functions=["ompl::geometric::PRM::setProblemDefinition", "ompl::geometric::PRM::clearQuery"], canaries=[dict(name="goal_milestones_kept", where="body:clearQuery", rx=r"goalM_n = 0;", repl="")]))
 ASSUMPTIONS = C01.ASSUMPTIONS + ["the termination condition returns an arbitrary value at every evaluation (so every interruption point is covered); executions that create fewer than 8 motions"]
 TRUSTED = C01.TRUSTED
-NOT_COVERED = ["every planner other than geometric::RRT (whole solve), control::PDST (flag logic of a resumed solve) and BundleSpaceGraph::clear (each solve()/clear() body would need its own contracts)",
+NOT_COVERED = ["every planner other than geometric::RRT (whole solve), control::PDST (flag logic of a resumed solve), EIT*'s approximate-solution update, PRM::setProblemDefinition/clearQuery and BundleSpaceGraph::clear (each solve()/clear() body would need its own contracts)",
                "resuming: that a second solve() continues the preserved search and only keeps or improves the reported solution; clear()/setProblemDefinition() forgetting the old query inside the planners (freeMemory, nn_->clear) -- only the PlannerInputStates cursors are verified",
                "crash-freedom beyond the memory-safety obligations of the modelled calls"]
